@@ -4,12 +4,12 @@
 package c06
 
 import (
-	"sync/atomic"
 	"encoding/json"
 	"fmt"
 	"os"
 	"sort"
 	"strings"
+	"sync/atomic"
 	"syscall"
 	"testing"
 	"time"
@@ -289,6 +289,77 @@ func gen(t *rapid.T) Case {
 	return c
 }
 
+var vocabTags = []string{"ol", "ul", "li", "dl", "dt", "dd", "table", "thead", "tbody", "tr", "td", "th", "caption", "colgroup", "col", "details", "summary", "figure",
+	"figcaption", "section", "article", "aside", "nav", "header", "footer", "main", "address", "center", "font", "big", "small", "sub", "sup", "abbr", "cite", "q", "kbd", "samp",
+	"var", "time", "data", "meter", "progress", "ruby", "rt", "bdo", "wbr", "marquee", "textarea", "select", "option", "button", "input", "label", "form", "fieldset", "legend",
+	"object", "embed", "video", "audio", "source", "track", "picture", "map", "area", "svg", "math", "template", "slot", "menu", "dir", "tt", "strike", "nobr", "p", "div", "span",
+	"blockquote", "pre", "h1", "h4", "a", "img", "iframe", "hr", "br", "b", "code"}
+var vocabAttrs = []string{"start", "value", "type", "reversed", "colspan", "rowspan", "span", "width", "height", "size", "cols", "rows", "maxlength", "tabindex", "min", "max",
+	"low", "high", "datetime", "dir", "align", "href", "src", "alt", "title", "class", "style", "hidden", "open", "loop", "border", "cellpadding"}
+var vocabValues = []string{"-1", "0", "1", "8", "9", "10", "99", "100", "999", "1000000", "-2147483649", "4294967296", "99999999999999999999", "1e9", "0x10", "abc", "", " 7 ",
+	"a", "A", "i", "I", "disc", "rtl", "right", "100%", "https://x.test/y", "#"}
+
+// genVocabulary: short documents over the whole HTML vocabulary - also the elements and attributes this tree does not
+// render yet (a tree that starts rendering one must do so without crashing on any attribute value) - and Markdown
+// ordered lists that start anywhere (seed C06-L)
+func genVocabulary(t *rapid.T) Case {
+	c := Case{Depth: 3}
+	var build func(depth int) string
+	build = func(depth int) string {
+		n := rapid.IntRange(1, 3).Draw(t, "vn")
+		var b strings.Builder
+		for i := 0; i < n; i++ {
+			if depth <= 0 || rapid.IntRange(0, 3).Draw(t, "vtext") == 0 {
+				b.WriteString(rapid.SampledFrom([]string{"two words", "x", "lorem ipsum dolor sit amet consectetur", "1.", "10. ten"}).Draw(t, "vword") + " ")
+				continue
+			}
+			tag := rapid.SampledFrom(vocabTags).Draw(t, "vtag")
+			b.WriteString("<" + tag)
+			for a := rapid.IntRange(0, 2).Draw(t, "vnattr"); a > 0; a-- {
+				b.WriteString(" " + rapid.SampledFrom(vocabAttrs).Draw(t, "vattr") + "=\"" + rapid.SampledFrom(vocabValues).Draw(t, "vvalue") + "\"")
+			}
+			b.WriteString(">")
+			if tag == "ol" || tag == "ul" || tag == "menu" || tag == "dir" {
+				most := 3
+				if depth == 3 {
+					most = 12
+				}
+				for k := rapid.IntRange(0, most).Draw(t, "vitems"); k > 0; k-- {
+					b.WriteString("<li>" + build(depth-1) + "</li>")
+				}
+			} else {
+				b.WriteString(build(depth - 1))
+			}
+			b.WriteString("</" + tag + ">")
+		}
+		return b.String()
+	}
+	mt := "text/html"
+	content := build(3)
+	if rapid.IntRange(0, 2).Draw(t, "vmarkdown") == 0 {
+		mt = "text/markdown"
+		var b strings.Builder
+		start := rapid.SampledFrom([]int{0, 1, 2, 7, 8, 9, 10, 98, 99, 100, 999, 999999999}).Draw(t, "vstart")
+		delim := rapid.SampledFrom([]string{".", ")"}).Draw(t, "vdelim")
+		for k, n := 0, rapid.IntRange(1, 14).Draw(t, "vmditems"); k < n; k++ {
+			fmt.Fprintf(&b, "%d%s item %d\n", start+k, delim, k)
+			if rapid.IntRange(0, 5).Draw(t, "vnested") == 0 {
+				fmt.Fprintf(&b, "    %d%s nested\n    %d%s nested too\n", start+5, delim, start+6, delim)
+			}
+		}
+		content = b.String() + "\n" + content
+	}
+	c.TextBytes = len(content)
+	c.Blocks = 6 // at most three levels of elements, each possibly a list with its entries
+	obj := map[string]any{"type": "Note", "content": content, "mediaType": mt}
+	if rapid.Bool().Draw(t, "asactor") {
+		obj = map[string]any{"type": "Person", "summary": content, "mediaType": mt}
+	}
+	c.Doc = marshal(obj)
+	genCommon(t, &c)
+	return c
+}
+
 // genDeep: posts and actors whose body nests up to 120 block (or mixed) elements, or up to 400 inline elements.
 func genDeep(t *rapid.T) Case {
 	c := Case{}
@@ -304,6 +375,8 @@ func genDeep(t *rapid.T) Case {
 		}
 		tags = vgen.InlineNestTags()
 		inline = true
+	case 5: // not deep at all: the whole HTML vocabulary with attributes, and Markdown lists that do not start at 1
+		return genVocabulary(t)
 	default:
 		c.Depth = rapid.IntRange(8, 24).Draw(t, "depth")
 	}
